@@ -49,6 +49,22 @@ def sparse_H(rng, n, r):
     return tree_H(rng, n, r)
 
 
+_CALLS = [0]
+
+
+def _in_context(f):
+    """Run f() plainly, under torch.no_grad(), under torch.inference_mode(), in turn: a decoder's answer does not depend on the autograd mode."""
+    _CALLS[0] += 1
+    w = _CALLS[0] % 3
+    if w == 1:
+        with torch.no_grad():
+            return f()
+    if w == 2:
+        with torch.inference_mode():
+            return f()
+    return f()
+
+
 def bits(t):
     return [sint(float(v)) if float(v) in (0.0, 1.0) else -1 for v in t.reshape(-1).tolist()]
 
@@ -126,7 +142,7 @@ def run(run):
                 for mag in ((0.05, 0.5, 8.0) if quick else (0.001, 0.05, 0.5, 2.0, 8.0, 50.0)):
                     Y = (1 - 2 * Cw) * mag
                     try:
-                        O = dec(Y)
+                        O = _in_context(lambda: dec(Y))
                         shape_ok = tuple(O.shape) == (len(msgs), k)
                         outs = [bits(O[i]) for i in range(len(msgs))]
                         raised = False
@@ -196,12 +212,14 @@ def run(run):
             enc = E.LDPCCodeEncoder(check_matrix=torch.tensor(H, dtype=torch.int64))
             for arct in (True, False):
                 dec = D.BeliefPropagationDecoder(enc, bp_iters=2 * n + 2, arctanh=arct)
+                if rep % 2 == 1:
+                    dec.eval()          # every other graph: the decoder in eval mode
                 add({"ev": "Code", "n": n, "H": H, "enum": True}, "code", {"code": "tree(%dx%d)" % (len(H), n)})
                 for _ in range(6 if quick else 40):
                     a = [rng.randint(-2, 2) for _ in range(n)]
                     y = torch.tensor([[v * math.log(2.0) for v in a]], dtype=torch.float32)
                     try:
-                        res = dec(y, return_soft=True)
+                        res = _in_context(lambda: dec(y, return_soft=True))
                         soft = res[1].reshape(-1).double()
                         p12 = [sint(min(math.exp(float(v)), 5e5) * 4096) for v in soft]
                         q12 = [sint(min(math.exp(-float(v)), 5e5) * 4096) for v in soft]
@@ -226,10 +244,12 @@ def run(run):
         for (opt, an, ad, beta) in ((dict(), 1, 1, 0), (dict(scaling_factor=0.75), 3, 4, 0), (dict(normalized=True), 3, 4, 64), (dict(scaling_factor=1.0, offset=0.5), 1, 1, 160)):
             for iters in (1, 2, 3):
                 dec = D.MinSumLDPCDecoder(enc, bp_iters=iters, **opt)
+                if iters == 2:
+                    dec.eval()
                 for _ in range(4 if quick else 25):
                     y = [rng.choice([-1, 1]) * rng.randint(2, 9) for _ in range(n)]
                     try:
-                        res = dec(torch.tensor([y], dtype=torch.float32), return_soft=True)
+                        res = _in_context(lambda: dec(torch.tensor([y], dtype=torch.float32), return_soft=True))
                         soft = [sint(float(v) * U) for v in res[1].reshape(-1)]
                         hard1 = bits(res[0])
                         raised = False
